@@ -381,9 +381,10 @@ def website_get(id3, key):
 
 
 def website_set(id3, key, value):
+    frames = [mutagen.id3.WOAR(url=v) for v in value]
     id3.delall("WOAR")
-    for v in value:
-        id3.add(mutagen.id3.WOAR(url=v))
+    for frame in frames:
+        id3.add(frame)
 
 
 def website_delete(id3, key):
